@@ -319,6 +319,8 @@ class Engine:
             et = ty[1:k]
             return Tup([self.sym('%s[%d]' % (name, i), et, mem) for i in range(n)])
         head, args = split_generic(ty)
+        if head == 'Vec' and len(args) >= 1 and self.slice_cap is not None:
+            return self.sym_slice(name, args[0], self.slice_cap, mem, as_vec=True)
         if head == 'Option' and len(args) == 1:
             d = z3.Int(name + '.d')
             self.assume(z3.And(d >= 0, d <= 1), ('rng', name + '.d'))
@@ -521,7 +523,15 @@ class Engine:
                 if isinstance(x, int) and isinstance(y, int):
                     q = self.idiv(x, y)
                     return I(q if op == 'Div' else x - q * y, ty)
-                raise Unsupported('signed symbolic division')
+                xa, ya = zint(x), zint(y)
+                ax = z3.If(xa >= 0, xa, -xa)
+                ay = z3.If(ya >= 0, ya, -ya)
+                q = ax / ay
+                neg = z3.Xor(xa < 0, ya < 0)
+                qq = z3.If(neg, -q, q)
+                if op == 'Div':
+                    return I(qq, ty)
+                return I(xa - qq * ya, ty)
             if isinstance(x, int) and isinstance(y, int):
                 return I(x // y if op == 'Div' else x % y, ty)
             x, y = zint(x), zint(y)
